@@ -209,6 +209,7 @@ CORPUS: Dict[str, str] = {
     "loops": HEAD + 'mon = SerialMonitor(9600)\nt = 0\nfor i in range(3):\n    t = t + i\n    if i == 1:\n        continue\n    mon.write(i)\nk = 0\nwhile k < 4:\n    k += 1\n    if k == 3:\n        break\nmon.write(t + k)\n',
     "functions": HEAD + 'mon = SerialMonitor(9600)\ndef add(p, q):\n    s = p + q\n    return s\ndef show(v):\n    if v > 2:\n        mon.write(v)\n    else:\n        mon.write(0)\nshow(add(1, 2))\nwhile True:\n    show(add(2, 2))\n',
     "nested_loop": HEAD + 'mon = SerialMonitor(9600)\nled = Led(9)\nn = 0\nwhile True:\n    n += 1\n    if n % 2 == 0:\n        for j in range(2):\n            if j == 1:\n                led.on()\n            else:\n                led.off()\n        mon.write(n)\n    else:\n        led.set_brightness(n)\n    sleep(10)\n',
+    "keyword_prefixed": HEAD + 'mon = SerialMonitor(9600)\nelse_led = Led(9)\nexcept_cnt = 1\nfinally_x = except_cnt + 1\nelif_v = 2\nelse_led.on()\nelse_led.set_brightness(elif_v + finally_x)\nmon.write(finally_x)\nwhile True:\n    else_led.toggle()\n    except_cnt += 1\n    mon.write(except_cnt)\n',
     "try": HEAD + 'mon = SerialMonitor(9600)\nv = 1\ntry:\n    v = v + 1\n    mon.write(v)\nexcept:\n    v = 0\nmon.write(v)\nwhile True:\n    try:\n        v += 1\n    except:\n        v = 9\n    mon.write(v)\n',
     "devices": HEAD + 'mon = SerialMonitor(9600)\nrgb = RGBLed(3, 5, 6)\nlcd = LCD(i2c_addr=39)\ndef hit():\n    mon.write("hit")\nbtn = Button(7, on_click=hit)\nlcd.line(0, "a # not a comment")\nwhile True:\n    if btn.is_pressed():\n        rgb.set_color(1, 2, 3)\n    else:\n        rgb.off()\n    lcd.write(0, 1, "x", align="right")\n',
     "strings": HEAD + 'mon = SerialMonitor(9600)\ns = "a#b"\nmon.write(s)\nmon.write("it\'s # fine")\nmon.write(f"{s}: # {1 + 2}")\nw = \'q"#\'\nmon.write(w + "\\\\")\nwhile True:\n    mon.write("#")\n',
